@@ -209,7 +209,7 @@ fn separator(rng: &mut Rng) -> (String, &'static str) {
         5 => ("\r\n".into(), "sp"),
         6 => ("  \n  ".into(), "sp"),
         7 => ([" // comment \"x\" /* y\n", " // see the café example — 日本語 😀\n", "// é\r\n"][rng.below(3)].into(), "line-comment"),
-        8 => ("/* c */".into(), "block-comment"),
+        8 => (["/* c */", "/** doc **/", "/***/", "/* a **/", "/*****/", "/**/"][rng.below(6)].into(), "block-comment"),
         9 => ("/* a\n * b */ ".into(), "block-comment"),
         10 => ("/* a /* b */ c */".into(), "nested-block-comment"),
         11 => ("/* /* /* */ */ x */ ".into(), "nested-block-comment"),
